@@ -66,7 +66,7 @@ corresponding one-step lemmas for the 13 functions of the interpreter are
 `eexec_begin_propagates` in `Proofs/IoErr.lean`. -/
 theorem io_propagates_execute {fuel m : Nat} {s s1 : State} {input : List UInt8} {fault : Option String} {t : String}
     (h : scanRun fuel m (startState s input fault) = (s1, .err (.io t))) :
-    execute fuel m s input fault = (s1, .err (.io t)) :=
+    execute fuel m s input fault = ({ s1 with dsc := s1.dsc ++ s1.scanner.dsc }, .err (.io t)) :=
   execute_propagates h (io_fatalRes t)
 
 /-! ### non-vacuity -/
